@@ -396,30 +396,69 @@ def eval_canon_mexpr(c, asg):
     return r
 
 
-def _mdd_dot_answer(m):
-    g = _mdd._to_dot(m)
-    nodes = []
-    for level, h in enumerate(g.subgraphs):     # one subgraph per layer `0 .. len(vars)`
-        for u, attr in h.nodes.items():
-            if isinstance(u, str):
-                continue            # the phantom node `"-i"` of the layer
-            var = attr['label'].rsplit('-', 1)[0]
-            nodes.append((u, level, var))
-    edges = []
-    for (u, v), attrs in g.edges.items():
-        if isinstance(u, str):
+def parse_mdd_dot(text):
+    """Abstract content of the DOT text `MDD.dump(<name>.dot)` writes: nodes `(u, level, variable)`
+    (the level = the label of the phantom node of the subgraph the node is listed in), edges
+    `(u, v, value, dashed)`."""
+    nodes, edges = [], []
+    level = None
+    for line in text.split('\n'):
+        line = line.strip()
+        m = re.match(r'^"-(\d+)" \[label="(\d+)", shape="none"\];$', line)
+        if m:
+            level = int(m.group(2))
             continue
-        for attr in attrs:
-            edges.append((u, v, int(attr['label']), attr['style'] == 'dashed'))
+        m = re.match(r'^(\d+) \[label="([^"]*)"\];$', line)
+        if m:
+            nodes.append((int(m.group(1)), level, m.group(2).rsplit('-', 1)[0]))
+            continue
+        m = re.match(r'^(\d+) -> (\d+) \[label="(\d+)", style="(\w+)"\];$', line)
+        if m:
+            edges.append((int(m.group(1)), int(m.group(2)), int(m.group(3)), m.group(4) == 'dashed'))
+    return nodes, edges
+
+
+def _mdd_dot_answer(m):
+    os.makedirs(implmod.SCRATCH, exist_ok=True)
+    fn = os.path.join(implmod.SCRATCH, f'm{os.getpid()}.dot')
+    try:
+        m.dump(fn)
+        text = open(fn).read()
+    finally:
+        if os.path.exists(fn):
+            os.remove(fn)
+    nodes, edges = parse_mdd_dot(text)
     ns = ','.join(f'{u}@{l}:{v}' for u, l, v in sorted(nodes))
     es = ','.join(f'{u}>{v}:{j}:{show_bool(c)}' for u, v, j, c in sorted(edges, key=lambda e: (e[0], e[2])))
     return f'N={ns};E={es}'
 
 
+def _mdd_dump_kind(m, a):
+    """Which file type `MDD.dump(fname)` hands to the DOT writer (nothing is written)."""
+    import dd._utils as _utils
+    seen = []
+    saved = _utils.DotGraph.dump
+    _utils.DotGraph.dump = lambda self, filename, filetype, **kw: seen.append(filetype)
+    try:
+        m.dump(a[0])
+    finally:
+        _utils.DotGraph.dump = saved
+    return seen[0]
+
+
+def _op_pred_put(impl, b, a):
+    i, v, w, u = map(int, a)
+    b._pred[(i, v, w)] = u
+    return '-'
+
+
+implmod.EXT_OPS['pred_put'] = _op_pred_put
+
 implmod.EXT_LINE_OPS.update({
     'mdd_to_expr': cmdd._mdd_op(lambda m, a: canon_mdd_expr(m.to_expr(int(a[0])))),
     'mdd_iter': cmdd._mdd_op(lambda m, a: ','.join(map(str, sorted(iter(m))))),
     'mdd_to_dot': cmdd._mdd_op(lambda m, a: _mdd_dot_answer(m)),
+    'mdd_dump_kind': cmdd._mdd_op(_mdd_dump_kind),
 })
 
 
@@ -588,12 +627,22 @@ def _update_predecessors(ctx, t_end):
             for u in drop:
                 s.op(0, 'pred_drop', u)
             lost = len(drop)
+        stale = rng.random() < 0.15
+        if stale:
+            # an entry that names something which is no stored node: the loop only WRITES entries,
+            # so it survives (`updatePredecessors_spec`, second clause) and `assert_consistent` says so
+            s.op(0, 'pred_put', 0, -1, max(b._succ) + 7, max(b._succ) + 9)
         s.state(0)
         ans = s.op(0, 'update_predecessors')
         ctx.evaluations += 1
         bad = []
         if ans != 'ok -':
             bad.append(f'update_predecessors() raised: {ans}')
+        elif stale:
+            if s.op(0, 'assert_consistent') != 'err AssertionError':
+                bad.append('assert_consistent() accepts a unique table with an entry for no node')
+            if any(b._pred.get(t) != u for u, t in b._succ.items()):
+                bad.append('a stored node lost its entry')
         else:
             if b._pred != {t: u for u, t in b._succ.items()}:
                 bad.append('_pred is not the inverse of _succ after update_predecessors()')
@@ -1163,6 +1212,11 @@ def extra_C15(ctx, t_end):
         it = s.op(0, 'mdd_iter')
         if it != 'ok ' + ','.join(map(str, sorted(m._succ))):
             ctx.violation('iter(mdd)', dict(got=it, lines=list(s.lines), tags=dict(call='MDD.__iter__')))
+        for fname, want in (('x.dot', 'ok dot'), ('y.pdf', 'ok pdf'), ('z.txt', 'err ValueError'), ('dot', 'err ValueError')):
+            a = s.op(0, 'mdd_dump_kind', fname)
+            if a != want:
+                ctx.violation('MDD.dump file type', dict(name=fname, got=a, lines=list(s.lines),
+                                                         tags=dict(call='MDD.dump', symptom='kind')))
         for t, r in refs.items():
             for sign in (1, -1):
                 u, tt_ = (r, t) if sign == 1 else (-r, sp.neg(t))
